@@ -1,4 +1,82 @@
-import Walleye.Model.MoveGen
+/-
+  C03 — every `go` is answered by exactly one legal, well-formed bestmove (logic part).
+  Proved: what the search thread can send, what the polling loop returns, what the dispatcher
+  prints.  Legality of the root successors themselves is C01/C02; that real threads realise some
+  schedule of the polling model is observed black-box.
+-/
+import Walleye.Props.C08
 namespace Walleye
-theorem C03_placeholder (c : Color) : c.opp.opp = c := Color.opp_opp c
+open Str
+
+/-- every board sent by `get_best_move` is a successor of the root (for every game, clock expiry,
+    ordering oracle that returns a sub-list, at every point of the run) -/
+theorem root_sends_subset {P O : Type} (g : Game P) (ord : Oracle P O) (hord : OrdSub ord) (fuel : Nat)
+    (root : P) (s : SS P O) (hs : s.reports = #[]) :
+    ∀ q, Report.sent q ∈ (outState (getBestMove g ord fuel root s)).reports.toList →
+      ∃ m ∈ g.gen root .all, q = m ∨ q = g.withOh m Gen.posInf :=
+  getBestMove_sends_root_successors g ord hord fuel root s hs
+
+/-- the inner search never prints or sends anything by itself -/
+theorem inner_search_is_silent {P O : Type} (g : Game P) (ord : Oracle P O) (fuel : Nat) (p : P)
+    (d ply : Nat) (a b : Int) (n : Bool) (s : SS P O) :
+    (outState (alphaBeta g ord fuel p d ply a b n s)).reports = s.reports :=
+  alphaBeta_silent g ord fuel p d ply a b n s
+
+variable (h : Hasher) (search : Pos → DrawTable → Nat → Option Pos)
+
+/-- one `go` prints exactly one line, and it is a `bestmove` line -/
+theorem go_prints_exactly_one_bestmove (σ σ' : Sess) (raw : List Char) (out : List String)
+    (hc : String.ofList ((splitOn ' ' (cleanInput raw)).headD []) = "go")
+    (hs : step h search σ (some raw) = .cont σ' out) :
+    ∃ t : List Char, out = [String.ofList ("bestmove ".toList ++ t)] := by
+  unfold step at hs
+  simp +decide only [hc, if_true, if_false] at hs
+  cases hp : parseGoCommand (splitOn ' ' (cleanInput raw)) with
+  | none => rw [hp] at hs; cases hs
+  | some gt =>
+    rw [hp] at hs
+    simp only at hs
+    by_cases hem : (generateMoves h σ.board .all).isEmpty = true
+    · rw [if_pos hem] at hs; cases hs; exact ⟨"0000".toList, by decide⟩
+    · rw [if_neg hem] at hs
+      cases hsr : search σ.board σ.table (calculateTimeSlice gt σ.board.toMove) with
+      | none => rw [hsr] at hs; cases hs
+      | some b =>
+        rw [hsr] at hs
+        simp only at hs
+        cases hbl : bestmoveLine b with
+        | none => rw [hbl] at hs; cases hs
+        | some l =>
+          rw [hbl] at hs
+          cases hs
+          unfold bestmoveLine at hbl
+          cases hm : moveText b with
+          | none => rw [hm] at hbl; cases hbl
+          | some t =>
+            rw [hm] at hbl
+            simp only [Option.map_some, Option.some.injEq] at hbl
+            subst hbl
+            exact ⟨t, rfl⟩
+
+/-- and the move on it is the descriptor of the board the polling loop ended with -/
+theorem go_answer_is_search_result (σ σ' : Sess) (raw : List Char) (out : List String) (gt : GameTime)
+    (hc : String.ofList ((splitOn ' ' (cleanInput raw)).headD []) = "go")
+    (hg : parseGoCommand (splitOn ' ' (cleanInput raw)) = some gt)
+    (hne : generateMoves h σ.board .all ≠ [])
+    (hs : step h search σ (some raw) = .cont σ' out) :
+    search σ.board σ.table (calculateTimeSlice gt σ.board.toMove) = some σ'.board ∧ σ'.table = σ.table := by
+  unfold step at hs
+  have hne' : (generateMoves h σ.board .all).isEmpty = false := by
+    cases hl : generateMoves h σ.board .all with
+    | nil => exact absurd hl hne
+    | cons _ _ => rfl
+  simp +decide only [hc, if_true, if_false, hg, hne'] at hs
+  split at hs
+  · split at hs
+    · rename_i b _ _ _
+      cases hs
+      exact ⟨by assumption, rfl⟩
+    · cases hs
+  · cases hs
+
 end Walleye
